@@ -1,7 +1,7 @@
 (* Extraction of the executable models for the correspondence check.
    ExtrOcamlBasic only: bool/option/unit/list/prod/sumbool/sumor map to OCaml natives;
    N / positive / nat stay the extracted inductive types.  Run with cwd = coq/extract. *)
-From CB Require Import Word PStream PEnc PMem PItem PUtf8 PBuild PDrive SpecHead.
+From CB Require Import Word PStream PEnc PMem PItem PUtf8 PBuild PDrive SpecHead SpecItem SpecParse.
 Require Extraction.
 Require Import ExtrOcamlBasic.
 Extraction Language OCaml.
@@ -14,4 +14,5 @@ Extraction "model.ml"
   ssize serialize_into serialize_alloc
   utf8d codepoint_count stored_codepoints utf8_spec spec_codepoints unicode_decode
   load callback append
-  run_client.
+  run_client
+  encode_rfc load_spec tokenize.
